@@ -66,6 +66,16 @@ func (r *readIndex) addRequest(index uint64,
 	}
 }
 
+// removeConfirmation drops the confirmations received from the specified
+// replica. It is invoked when the replica is removed from the shard, a replica
+// that is no longer a member can not vouch for the leader, its confirmation
+// must not count towards the quorum of the new, possibly smaller, membership.
+func (r *readIndex) removeConfirmation(replicaID uint64) {
+	for _, p := range r.pending {
+		delete(p.confirmed, replicaID)
+	}
+}
+
 func (r *readIndex) hasPendingRequest() bool {
 	return len(r.queue) > 0
 }
